@@ -803,3 +803,31 @@ def many_ended_family() -> List[dict]:
                     pool["worker"] = {"script": [], "fname": "w"}
                 cases.append({"pools": [pool], "steps": steps})
     return cases
+
+
+def cancel_then_close_family(thin: int = 1) -> List[dict]:
+    """A group is cancelled in the very tick it was requested (its spawner has not run yet) while a sibling's spawner still has work;
+    gather_and_close() is called in that state: the sibling runs to the end, then the pool closes:
+
+        spawn A ; spawn B ; tick t (0..1) ; cancel_group(A or B) ; gather_and_close ; tick ; gate_all ... ; settle ; drain"""
+    cases: List[dict] = []
+    kinds = [("map", {"n": 3, "nc": 1}), ("apply", {"num": 3}), ("starmap", {"n": 3, "nc": 2})]
+    for size in (1, 2):
+        for ka, kb in itertools.product(range(3), range(3)):
+            for which in (0, 1):
+                for t in (0, 1):
+                    for re_ in (True, False):
+                        for place in ("eager", "task"):
+                            steps: List[dict] = []
+                            for j, m in enumerate((ka, kb)):
+                                kind, extra = kinds[m]
+                                steps.append({"op": "spawn", "pool": 0, "kind": kind, "place": "inline", "worker": {"script": [["wait"]], "fname": "wx"[j]}, **extra})
+                            _ticks(steps, t)
+                            steps.append({"op": "cancel_group", "pool": 0, "ref": ["live", which], "place": "inline"})
+                            steps.append({"op": "close", "pool": 0, "place": place, **({"re": True} if re_ else {})})
+                            steps.append({"op": "until_closed", "pool": 0, "place": "task"})
+                            steps.append({"op": "tick", "k": 2})
+                            steps.extend(copy.deepcopy(DRAIN))
+                            steps.extend(copy.deepcopy(DRAIN))
+                            cases.append({"pools": [{"cls": "TaskPool", "size": size}], "steps": steps})
+    return cases[::thin] if thin > 1 else cases
